@@ -23,6 +23,10 @@ func (p *RetryPolicy) CreateWrapper() (w Wrapper)
   modifies p.waitDuration
   ensures positive-wait: p.waitDuration > 0
 
+func (p *CircuitBreakerPolicy) CreateWrapper() (w Wrapper)
+  trusted
+  flag allocates
+
 func (p *RetryPolicy) Wrap(handler HandlerFunc) (wrapped HandlerFunc)
   requires p != nil
   closure[1] (ctx context.Context) (err error)
